@@ -540,11 +540,41 @@ def limits_rule(ck, facts):
             ck.ok("R6.10", "recursion depth bounded by %s%s" % (sorted(bound), " and an absolute bound" if absolute else ""))
 
 
-def consumed_writer_flushed(fn):
-    """(writes found, every construction of the Ok result is dominated by a flush of the writer)"""
-    writes = [bi for bi, t in fn.calls() if call_name_matches(t, r"io::Write>?::write_all$|io::Write>?::write_fmt$|io::Write>?::write$")]
+WRITES = r"io::Write>?::write_all$|io::Write>?::write_fmt$|io::Write>?::write$"
+
+
+def write_sites(fn, facts=None):
+    """blocks of fn that write: a write call, or (with facts) a call that is handed a closure which writes
+    (`quads.into_iter().try_for_each(|q| { w.write_all(..)?; .. })`)"""
+    sites = [bi for bi, t in fn.calls() if call_name_matches(t, WRITES)]
+    if facts is not None:
+        writing = {u.id for u in facts.with_closures(fn)[1:] if any(call_name_matches(t, WRITES) for _, t in u.calls())}
+        for bi, t in fn.calls():
+            for a in t["args"]:
+                if a[0] != "k":
+                    o = fn.origin(a)
+                    if o[0] == "agg" and o[1].get("def") in writing:
+                        sites.append(bi)
+    return sites
+
+
+def consumed_writer_flushed(fn, facts=None):
+    """(writes found, success is only reported after a flush of the writer): every construction of the Ok result is dominated by a
+    flush; when the function builds no Ok of its own (its tail is `w.flush().map_err(..)`: the flush's own result is what is
+    returned), no return is reachable from the last write without passing a flush or assigning an Err"""
+    writes = write_sites(fn, facts)
     flushes = [bi for bi, t in fn.calls() if call_name_matches(t, r"io::Write>?::flush$")]
     oks = [bi for bi, si, dest, ops in blocks_with_agg(fn, "core::result::Result", "Ok") if dest == [0]]
+    if writes and not oks and flushes:
+        errs = {bi for bi, si, dest, ops in blocks_with_agg(fn, "core::result::Result", "Err") if dest == [0]}
+        errs |= {bi for bi, t in fn.calls() if call_name_matches(t, r"ops::FromResidual(<.*>)?>?::from_residual$") and t["dest"] == [0]}
+        ok = True
+        for w in writes:
+            nxt = fn.blocks[w]["t"].get("to")
+            reach = fn.reachable(nxt, avoid=set(flushes) | errs) if nxt is not None else set()
+            if any(r in reach for r in fn.ret_blocks()):
+                ok = False
+        return True, ok
     return bool(writes), bool(writes) and bool(oks) and all(any(fn.dominates(f_, o) for f_ in flushes) for o in oks)
 
 
@@ -558,7 +588,7 @@ def flush_rule(ck, facts):
     if fn is None:
         return
     by_value = not fn.locals[fn.argc]["ty"].startswith("&") if fn.argc else False
-    found, ok = consumed_writer_flushed(fn)
+    found, ok = consumed_writer_flushed(fn, facts)
     if not found:
         ck.bad("R6.11", "R6.11@normalize_with#anchor", "anchor-missing: the writes of the canonical document", fn.loc)
     elif ok or not by_value:
